@@ -5,6 +5,7 @@ go 1.23
 require (
 	github.com/bbva/qed v0.0.0
 	github.com/hashicorp/raft v1.1.1
+	github.com/prometheus/client_golang v0.9.2
 	google.golang.org/grpc v1.23.1
 	pgregory.net/rapid v1.3.0
 )
@@ -29,7 +30,6 @@ require (
 	github.com/miekg/dns v1.0.14 // indirect
 	github.com/pkg/errors v0.8.1 // indirect
 	github.com/pmezard/go-difflib v1.0.0 // indirect
-	github.com/prometheus/client_golang v0.9.2 // indirect
 	github.com/prometheus/client_model v0.0.0-20180712105110-5c3871d89910 // indirect
 	github.com/prometheus/common v0.0.0-20181126121408-4724e9255275 // indirect
 	github.com/prometheus/procfs v0.0.0-20190328153300-af7bedc223fb // indirect
